@@ -3,12 +3,14 @@ import Rustemo.Proofs.LexFilters
 # C06 — lexical ambiguity is resolved in the documented order of strategies
 
 `Lex.iter` is the `TokenIterator` (lexer.rs), `Lex.withFlags` the finish flags and `Lex.key` the sort
-key of `sort_terminals` (table/mod.rs), `lrPick` / `glrKeep` the filters of `LRParser::next_token` and
+key of `sort_terminals` (table/mod.rs; the pair `(prio, string length)`, compared lexicographically by
+`Lex.KeyLt`), `lrPick` / `glrKeep` the filters of `LRParser::next_token` and
 `GlrParser::find_lookaheads`; `m` is an ARBITRARY matching function (which expected terminals match at
 the current position, and how long), so the theorems cover every terminal set, every input and every
 combination of the switches at once.  The sorted list is certified per state of the real table by
 the executable `Lex.sortedOk` (sorted by key, ties in grammar order, flags as computed by
-`withFlags`, string recognizers 1..999 bytes — the bound the sort key `prio*1000+len` forces).
+`withFlags`, string recognizers not empty).  There is no upper bound on the length of a string
+recognizer any more: the former arithmetic key `prio*1000+len` forced `len < 1000`, the pair does not.
 
 PARTIAL: the last strategy, grammar order (LR takes the first of the remaining tokens; that the first
 one is the earliest in the grammar), is decided by oracle + correspondence only.
@@ -93,13 +95,21 @@ theorem C06_model_iterator_is_iter (env : Rustemo.Env) (pos : Rustemo.Pos) (L : 
   tokenIterAux_eq_iter env pos L false
 
 /-- non-vacuity: a three-terminal state (string `if` prio 10, regex prio 10, regex prio 5), most
-    specific on; and the 1000-byte bound is tight: see `C06_counterexample_long_string` -/
+    specific on -/
 example : sortedB true [⟨1, 10, some 2⟩, ⟨2, 10, none⟩, ⟨3, 5, none⟩] = true ∧
     [⟨1, 10, some 2⟩, ⟨2, 10, none⟩, (⟨3, 5, none⟩ : TermDesc)].all wftB = true := by decide
 
-/-- why the length bound is needed: a string recognizer of 1000 bytes with priority 9 sorts before
-    a regex of priority 10 (key 9*1000+1000 = 10*1000+0, tie broken by grammar order) -/
-theorem C06_counterexample_long_string :
-    sortedB true [⟨1, 9, some 1000⟩, ⟨2, 10, none⟩] = true ∧ wftB ⟨1, 9, some 1000⟩ = false := by decide
+/-- no length bound is needed: a string recognizer of 1000 bytes with priority 9 sorts AFTER a regex
+    of priority 10 (key `(10, 0) > (9, 1000)` lexicographically; under the former key
+    `9*1000+1000 = 10*1000+0` the two tied and grammar order put the string first).  The list in
+    priority order is sorted and well-formed, the reverse order is not sorted. -/
+theorem C06_long_string_does_not_outrank :
+    sortedB true [⟨2, 10, none⟩, ⟨1, 9, some 1000⟩] = true ∧
+    [⟨2, 10, none⟩, (⟨1, 9, some 1000⟩ : TermDesc)].all wftB = true ∧
+    sortedB true [⟨1, 9, some 1000⟩, ⟨2, 10, none⟩] = false := by decide
+
+/-- and the model of the sort itself puts them in that order, whatever the incoming order -/
+example : sortTerms true [⟨1, 9, some 1000⟩, ⟨2, 10, none⟩] = [⟨2, 10, none⟩, ⟨1, 9, some 1000⟩] ∧
+    sortTerms true [⟨2, 10, none⟩, ⟨1, 9, some 1000⟩] = [⟨2, 10, none⟩, ⟨1, 9, some 1000⟩] := by decide
 
 end Rustemo.Props.C06
